@@ -38,6 +38,8 @@ ALPHABET = "abcdefghijklmnopqrstuvwxyzABCDEFGHIJKLMNOPQRSTUVWXYZ0123456789"
 
 def gen_labels(rng, n):
     kind = rng.random()
+    if n > 16:
+        kind = max(kind, 0.15)
     if kind < 0.15:  # (row, col) style labels, stored as lists in the JSON case and turned into tuples at execution
         return [list(t) for t in rng.sample([(a, b) for a in range(4) for b in range(4)], n)]
     if kind < 0.3:
@@ -78,8 +80,99 @@ def gen_arcs(rng, n, simple):
     return arcs
 
 
+def gen_layered_unit(rng):
+    """Unit capacities, several layers between s and t, lanes that cross between parallel routes, demand 2-3:
+    the first (shortest) augmenting path may block both routes, so a later augmentation has to cancel flow."""
+    layers = [[0]]
+    nxt = 1
+    for _ in range(rng.randrange(2, 5)):
+        w = rng.randrange(2, 4)
+        layers.append(list(range(nxt, nxt + w)))
+        nxt += w
+    layers.append([nxt])
+    n = nxt + 1
+    arcs = []
+    for a, b in zip(layers, layers[1:]):
+        for u in a:
+            for v in b:
+                if rng.random() < 0.55 or len(a) == 1 or len(b) == 1:
+                    arcs.append([u, v, 1, rng.choice([0, 1, 1, 2, 5])])
+    for i in range(len(layers) - 2):  # lanes that skip a layer or stay inside one
+        for _ in range(rng.randrange(0, 3)):
+            u = rng.choice(layers[i] + layers[i + 1])
+            v = rng.choice(layers[i + 1] + layers[i + 2])
+            if u < v:
+                arcs.append([u, v, 1, rng.choice([0, 1, 3])])
+    rng.shuffle(arcs)
+    return {"kind": "st", "n": n, "arcs": arcs, "s": 0, "t": n - 1, "demand": rng.choice([1, 2, 2, 3, 3, 4]),
+            "labels": [gen_labels(rng, n), gen_labels(rng, n)], "ints_too": rng.random() < 0.5, "fresh": rng.random() < 0.5}
+
+
+def gen_pipeline_dag(rng):
+    """Acyclic pipeline with rebates (negative costs, no cycle at all): optional stages, each earning a rebate, every stage
+    may ship to a hub, the hub fans out over warehouses with their own rebates to a market.  Labels improve again and again
+    during one shortest-path computation, which is legal and must neither fail nor be cut short."""
+    stages, wh = rng.randrange(2, 15), rng.randrange(1, 13)
+    cap = rng.choice([1, 2, 50])
+    hub = stages + 1
+    market = hub + wh + 1
+    n = market + 2
+    arcs = [[0, hub, cap, 0], [0, 1, cap, 0]]
+    for st in range(1, stages + 1):
+        arcs.append([st, hub, cap, rng.choice([0, 0, 1])])
+        if st < stages:
+            arcs.append([st, st + 1, cap, -rng.choice([1, 10, 10])])
+    for k in range(wh):
+        arcs.append([hub, hub + 1 + k, cap, 0])
+        arcs.append([hub + 1 + k, market, cap, -k if rng.random() < 0.8 else rng.randrange(0, 5)])
+    arcs.append([market, market + 1, cap * 2, 0])
+    for _ in range(rng.randrange(0, 4)):  # a few extra forward lanes
+        u = rng.randrange(0, n - 1)
+        arcs.append([u, rng.randrange(u + 1, n), rng.choice([1, 3]), rng.randrange(-2, 6)])
+    return {"kind": "st", "n": n, "arcs": arcs, "s": 0, "t": n - 1, "demand": rng.choice([1, 2, 2, 3]),
+            "labels": [gen_labels(rng, n), gen_labels(rng, n)], "ints_too": True, "fresh": rng.random() < 0.5}
+
+
+def gen_transshipment(rng):
+    """Dozens of nodes, 55-130 lanes, several plants and customers, costs from node potentials (so negative lanes but no
+    negative cycle), the lanes listed in a meaningful order (by kind, by cost, shuffled): network_simplex alone."""
+    n = rng.randrange(12, 26)
+    pot = [rng.randrange(0, 12) for _ in range(n)]
+    k_s, k_d = rng.randrange(1, 4), rng.randrange(1, 4)
+    nodes = list(range(n))
+    rng.shuffle(nodes)
+    plants, customers = nodes[:k_s], nodes[k_s:k_s + k_d]
+    sup = [0] * n
+    for _ in range(rng.randrange(1, 6)):
+        a, b = rng.choice(plants), rng.choice(customers)
+        d = rng.randrange(1, 4)
+        sup[a] += d
+        sup[b] -= d
+    arcs = []
+    for _ in range(rng.randrange(55, 131)):
+        u, v = rng.sample(range(n), 2)
+        red = rng.choice([0, 0, 1, 2, 5])  # reduced cost >= 0 with respect to the potentials: no negative cycle
+        arcs.append([u, v, rng.choice([0, 1, 2, 3, 6]), pot[v] - pot[u] + red])
+    order = rng.choice(["shuffled", "same_kind_first", "by_cost", "plants_last"])
+    kind = lambda x: 0 if x in plants else (1 if x in customers else 2)  # noqa: E731
+    if order == "same_kind_first":
+        arcs.sort(key=lambda a: (kind(a[0]) != kind(a[1]) or kind(a[0]) == 2, a[3]))
+    elif order == "by_cost":
+        arcs.sort(key=lambda a: a[3])
+    elif order == "plants_last":
+        arcs.sort(key=lambda a: (kind(a[0]) == 0 or kind(a[1]) == 1))
+    return {"kind": "ns", "n": n, "arcs": arcs, "supplies": sup}
+
+
 def generate(rng, tier):
     x = rng.random()
+    y = rng.random()
+    if y < 0.05:
+        return gen_layered_unit(rng)
+    if y < 0.06:
+        return gen_pipeline_dag(rng)
+    if y < 0.066:
+        return gen_transshipment(rng)
     if x < 0.25:
         n, m = rng.randrange(0, 6), rng.randrange(1, 6)
         dy = rng.random() < 0.3
